@@ -65,6 +65,47 @@ def _stringi_types():
     return out
 
 
+def _string_char_sizes():
+    """char_size (bytes per character) of every exported StringDataType subclass, of FixedSizeString
+    and of the PCCC string types: AST view (`char_size = <int>` in the nearest class of the MRO that
+    assigns it) cross-checked with the runtime attribute"""
+    tree = _parse("pycomm3/cip/data_types.py")
+    mod = _import("pycomm3.cip.data_types")
+    ct = _import("pycomm3.custom_types")
+    pc = _import("pycomm3.cip.pccc")
+    assigned = {}
+    for node in tree.body:
+        if isinstance(node, ast.ClassDef):
+            for st in node.body:
+                tgt = None
+                if isinstance(st, ast.Assign) and len(st.targets) == 1 and isinstance(st.targets[0], ast.Name):
+                    tgt, val = st.targets[0].id, st.value
+                elif isinstance(st, ast.AnnAssign) and isinstance(st.target, ast.Name) and st.value is not None:
+                    tgt, val = st.target.id, st.value
+                if tgt == "char_size":
+                    if not (isinstance(val, ast.Constant) and isinstance(val.value, int) and not isinstance(val.value, bool)):
+                        raise GenError(f"{node.name}.char_size: not an integer literal")
+                    assigned[node.name] = val.value
+    if "StringDataType" not in assigned:
+        raise GenError("StringDataType.char_size: not found")
+    out = []
+    classes = [getattr(mod, n) for n in mod.__all__ if isinstance(getattr(mod, n), type) and issubclass(getattr(mod, n), mod.StringDataType)]
+    classes += [ct.FixedSizeString(1), pc.PCCC_ASCII, pc.PCCC_STRING]
+    for cls in classes:
+        ast_val = None
+        for k in cls.__mro__:
+            if k.__name__ in assigned and (k.__module__ == mod.__name__):
+                ast_val = assigned[k.__name__]
+                break
+            if "char_size" in k.__dict__ and k.__module__ != mod.__name__:
+                raise GenError(f"{cls.__name__}: char_size assigned outside data_types.py")
+        rv = getattr(cls, "char_size", None)
+        if not isinstance(rv, int) or isinstance(rv, bool) or rv != ast_val:
+            raise GenError(f"{cls.__name__}.char_size: runtime {rv!r} differs from AST {ast_val!r}")
+        out.append((cls.__name__, rv))
+    return out
+
+
 def _member_desc(m, where):
     """(name or None, type descriptor (class name, parameter)) of a Struct member (class or instance)"""
     dt = _import("pycomm3.cip.data_types")
@@ -142,6 +183,8 @@ def gen_codec_facts():
                "; ".join(f"({k}, {zs(v)})" for k, v in _stringn_encodings()) + "].\n\n")
     out.append("(* STRINGI.STRING_TYPES: code -> class name *)\nDefinition stringi_string_types : list (Z * list Z) := [" +
                "; ".join(f"({c}, {zs(n)})" for c, n in _stringi_types()) + "].\n\n")
+    out.append("(* char_size of the string classes: class name -> bytes per character *)\nDefinition string_char_sizes : list (list Z * Z) := [" +
+               "; ".join(f"({zs(n)}, {c})" for n, c in _string_char_sizes()) + "].\n\n")
     # encodings of derived string classes (inherited class attribute `encoding`)
     fss = ct.FixedSizeString(1)
     for nm, cls in (("fss_encoding", fss), ("pccc_ascii_encoding", pc.PCCC_ASCII), ("pccc_string_encoding", pc.PCCC_STRING)):
